@@ -32,6 +32,7 @@ void vterm_automate_newdata(struct vterm_automate *vterm, int16_t input_c)
 {
     char c = 0;
     int ret;
+    int cursor_before = 0;
     int return_flag = 0;
 
     while (return_flag == 0)
@@ -78,6 +79,9 @@ void vterm_automate_newdata(struct vterm_automate *vterm, int16_t input_c)
                 break;
             }
 
+            // where the screen cursor stands relative to the line start, before
+            // a history recall replaces the line
+            cursor_before = (int)vterm->rl.line.cursor;
             ret = readline_putchar(&vterm->rl, c);
 
             switch (ret)
@@ -165,9 +169,15 @@ void vterm_automate_newdata(struct vterm_automate *vterm, int16_t input_c)
                 {
                     if (vterm->echo)
                     {
-                        ret = vt100_left(buf, vterm->rl.lastsize);
+                        // back to the start of the old line: that is cursor
+                        // columns to the left, not the length of the line
+                        if (cursor_before)
+                        {
+                            ret = vt100_left(buf, cursor_before);
 
-                        vterm->write_callback(vterm->write_privdata, buf, ret);
+                            vterm->write_callback(
+                                vterm->write_privdata, buf, ret);
+                        }
 
                         vterm->write_callback(vterm->write_privdata,
                                               VT100_ERASE_LINE_AFTER_CURSOR,
